@@ -10,6 +10,7 @@ import (
 	"os"
 	"path/filepath"
 	"regexp"
+	"strconv"
 	"strings"
 	"time"
 	"unicode/utf8"
@@ -116,6 +117,28 @@ func genParText(r *Rng) (string, string) {
 			}
 		}
 		return strings.Join(lines, ""), "errlines"
+	case k == 8:
+		// many short records and 2-4 invalid ones spread evenly: with a few workers every chunk has an invalid
+		// record strictly inside it (what each worker finds on its own, not the main goroutine at the seams)
+		n := r.Pick2([]int{24, 36, 48, 64, 96})
+		parts := r.Pick2([]int{2, 3, 4})
+		var b strings.Builder
+		day := today.AddDate(0, 0, -n)
+		bad := map[int]bool{}
+		for j := 0; j < parts; j++ {
+			bad[(2*j+1)*n/(2*parts)+r.Range(-1, 1)] = true
+		}
+		for i := 0; i < n; i++ {
+			day = day.AddDate(0, 0, 1)
+			b.WriteString(day.Format("2006-01-02") + "\n")
+			if bad[i] {
+				b.WriteString(r.Pick([]string{"    13:00 - 12:00\n", "    8:00 - 25:00\n", "  \t 1h\n    2h\n", "    1h\n   2h\n", "    -\n"}))
+			} else {
+				b.WriteString(r.Pick([]string{"    1h\n", "    8:00 - 9:00 work\n", "    30m #x\n    2h\n"}))
+			}
+			b.WriteString("\n")
+		}
+		return b.String(), fmt.Sprintf("errspread:%d", parts)
 	default:
 		n := r.Range(0, 24)
 		var b strings.Builder
@@ -148,6 +171,9 @@ func (parEngine) generate(property string, seed int64, index int, tier string) *
 		n = r.Pick2([]int{2, 3, 4, 16})
 	default:
 		n = r.Range(2, 5)
+	}
+	if strings.HasPrefix(origin, "errspread:") && r.Chance(3, 4) {
+		n, _ = strconv.Atoi(strings.TrimPrefix(origin, "errspread:"))
 	}
 	if n < 1 {
 		n = 1
